@@ -69,10 +69,10 @@ Inductive action :=
 | AWrite (data : bytes)                     (* the write callable *)
 | ARaise (e : exn)
 | AMutate (i : nat) (is_value : bool) (v : str).
-        (* only possible when the application passed its header pairs as mutable
-           LISTS instead of tuples: response_headers.extend(headers) keeps
-           references to the pair objects, and the application assigns to
-           element 0/1 of the pair that sits at index i of response_headers *)
+        (* the application passed its header pairs as mutable LISTS and assigns to
+           element 0/1 of the i-th pair after start_response returned: no effect,
+           start_response stored fresh tuples (before commit 2730de7 it kept
+           references and the mutation reached the wire) *)
 
 Inductive step_result := SYield (b : bytes) | SRaise (e : exn).
 (* one __next__ of the iterable: WSGI-visible actions, then a value or an exception *)
@@ -318,7 +318,7 @@ Definition bh_clen (a : bh_acc) (t : task) : option str * task :=
 
 Definition bh_conn (connection : str) (force_close : bool) (clh : option str) (t : task) : task :=
   if negb (t_v11 t) then
-    if beqb connection (lit "keep-alive") && negb force_close then
+    if beqb connection (lit "keep-alive") && negb force_close && negb (t_cof t) then
       if negb (truthy clh) then set_close_on_finish t
       else set_rh (t_rh t ++ [(lit "Connection", lit "Keep-Alive")]) t
     else set_close_on_finish t
@@ -423,7 +423,7 @@ Definition task_finish (c : cfg) (r : req) (disc : option nat) (s : st) : st * o
   match r1 with
   | (s1, Exn e) => (s1, Exn e)
   | ((t, ch), Ok _) =>
-      if t_chunked t then
+      if t_chunked t && negb (r_head r) then      (* getattr(self.request, "command", None) != "HEAD" *)
         match write_soon disc ch (WBytes chunk_terminator) with
         | (ch1, o) => ((t, ch1), o)
         end
@@ -498,7 +498,7 @@ Definition run_action (c : cfg) (r : req) (disc : option nat) (s : st) (a : acti
       end
   | AWrite data => task_write c r disc s data
   | ARaise e => (s, Exn e)
-  | AMutate i isv v => ((set_rh (mutate_nth i isv v (t_rh (fst s))) (fst s), snd s), Ok tt)
+  | AMutate i isv v => (s, Ok tt)   (* response_headers.extend([(k, v) for k, v in headers]) copied the pairs *)
   end.
 
 Fixpoint run_actions (c : cfg) (r : req) (disc : option nat) (s : st) (l : list action) : st * outcome unit :=
@@ -577,6 +577,7 @@ Definition execute_body (c : cfg) (r : req) (disc : option nat) (s : st) (a : ap
             match cl with None => fsize | Some n => Z.min fsize n end
           else 0%Z in
         if (size =? 0)%Z then None
+        else if t_wrote_header t then None      (* ... and not self.wrote_header *)
         else
           let t :=
             if match cl with Some n => negb (n =? size)%Z | None => true end then
@@ -653,14 +654,15 @@ Definition task_run (c : cfg) (r : req) (disc : option nat) (s : st) (job : app 
             end
   end.
 
-(* Task.service: ... except OSError: close_on_finish = True; re-raise if log_socket_errors *)
+(* Task.service: ... except OSError: close_on_finish = True; re-raise if log_socket_errors or not wrote_header *)
 Definition task_service (c : cfg) (r : req) (disc : option nat) (s : st) (job : app + ((str * str) * str)) : exec_result :=
   let x := task_run c r disc s job in
   match x_out x with
   | Exn e =>
       if is_OSError e then
         let s1 := (set_cof true (fst (x_st x)), snd (x_st x)) in
-        mkExec s1 (if c_log_socket_errors c then x_out x else Ok tt) (x_closes x) (x_handover x) (x_iter x)
+        mkExec s1 (if c_log_socket_errors c || negb (t_wrote_header (fst (x_st x))) then x_out x else Ok tt)
+               (x_closes x) (x_handover x) (x_iter x)
       else x
   | Ok _ => x
   end.
@@ -699,7 +701,7 @@ Definition ladder (c : cfg) (r : req) (disc : option nat) (x : exec_result) (raw
   | Ok _ => fin (x_st x) None false
   | Exn e =>
       if exn_eqb e ClientDisconnected then fin (set_cof true t, ch) None false
-      else if is_Exception e then
+      else                                       (* except BaseException *)
         if negb (t_wrote_header t) then
           let body := if c_expose_tracebacks c then c_tb c else internal_error_text in
           let er := mkReq (r_version r) (r_connection r) false false (Some (err_InternalServerError, body)) in
@@ -713,7 +715,6 @@ Definition ladder (c : cfg) (r : req) (disc : option nat) (x : exec_result) (raw
               else fin (x_st x1) (Some e1) true
           end
         else fin (set_cof true t, ch) None false
-      else fin (t, ch) (Some e) false
   end.
 
 (* HTTPChannel.service for requests[0] *)
